@@ -45,6 +45,16 @@ CHECKS = {
         technique='CrossHair (z3) drives an exhaustive case split over 3 flags x 7 feature bits x spelling; the real ConversionOptions code runs natively per case (solver-exhausted complete enumeration)',
         text='All 1024 option values x 5 spellings: to_ast/unparse/eval round trip gives an equal value with equal hash; pairs differing in exactly one field/feature compare unequal, identical ones equal with equal hash; call_options and uses() as documented; ag__.STD shortcut exactly for the standard options.',
         note='Finite space, exhaustive=true. The solver only owns the case split; stated as such.'),
+    'C09': dict(
+        level='translation_validation', engine='xh-diff', design='DESIGN.md §2 C09',
+        technique='CrossHair (z3) differential execution of to_graph(f) vs f per (function, binding shape) with symbolic argument/cell/global values',
+        text='For an enumerated family of signatures (positional-only, defaults, *args, keyword-only, **kwargs, mutable defaults), closure shapes (shared cells, functions created in a loop, unassigned cell, directive-only free variable), lambdas and methods, z3 decides per binding shape (number of positionals x keyword subset incl. unknown keywords) that the converted function has the same outcome (value or TypeError) for all argument values, and that values written through the original sibling setter / module global / default object are seen by the converted function.',
+        note='Signatures/closure shapes/binding shapes are enumerated, values are symbolic. Identity facts (defaults, kwdefaults, globals, cells, decorators) are concrete side conditions, reported as such.'),
+    'C13': dict(
+        level='fault_enumeration', engine='xh-diff', design='DESIGN.md §2 C13',
+        technique='CrossHair (z3) on the real api.converted_call: symbolic argument values per (callable kind, call shape); solver-exhausted case analysis over option bits x ctx status and over fault stage x fault class',
+        text='Transparency: obs(converted_call(f,args,kwargs)) == obs(f(*args,**kwargs)) for 29 callable kinds x call shapes, all int values. Policy: conversion attempted iff the documented decision table says so, for all 8 option values x 3 context statuses per kind. Fall-back: for each of 20 pipeline stages x 7 exception classes the call still returns the direct result, the target runs once, exactly one warning is logged, the failure is remembered and the second call enters no stage.',
+        note='Decision table transcribed from functions.md. Faults are exceptions raised by patched module-level stage entry points. wrapt/TF plugins outside.'),
 }
 
 NOT_APPLICABLE = {
